@@ -1,13 +1,13 @@
 From Coq Require Import List String.
 From Verif Require Import Base Dispatch DispatchVM DispatchPoly DispatchTorch DispatchCodec DispatchAnalysis
-  DispatchHooks DispatchAllowlist DispatchMLNest DispatchEffects.
+  DispatchHooks DispatchAllowlist DispatchMLNest DispatchEffects DispatchCache.
 Import ListNotations.
 Open Scope string_scope.
 
 (* every Dispatch*.v contributes one handler; the first that recognises the command answers *)
 Definition handlers : list (string -> list sexp -> option string) :=
   [handle_sev; handle_vm; handle_poly; handle_torch; handle_codec; handle_analysis;
-   handle_hooks; handle_allow; handle_mlnest; handle_effects].
+   handle_hooks; handle_allow; handle_mlnest; handle_effects; handle_cache].
 
 Fixpoint first_some (hs : list (string -> list sexp -> option string)) (cmd : string)
          (args : list sexp) : option string :=
